@@ -177,10 +177,21 @@ def rule_c(ctx):
 
 
 def _register_impls(F):
-    r = [i for i in F.inst if i.local and i.body is not None and i.defp == "signal_hook_registry::register_unchecked_impl"]
-    if not r:
-        raise AnchorLost("register_unchecked_impl")
-    return r
+    """the registering function, located by role: the workspace function(s) that call the function which installs the dispatcher
+    (the one taking the dispatcher's address for sigaction)"""
+    h = handler(F)
+    ins = [i for i in F.inst if i.body is not None and any(k == "reify" and t == h.id for (t, k, b) in F.edges(i))]
+    out = {}
+    for i in ins:
+        for (cid, k, bb) in F.callers().get(i.id, []):
+            c = F.inst[cid]
+            if k == "call" and c.local and c.body is not None:
+                out[c.id] = c
+        if any((t.get("def") or "").endswith("HalfLock::<T>::write") for _, t in i.calls()):
+            out[i.id] = i          # installer inlined into the registering function
+    if not out:
+        raise AnchorLost("registering function (caller of the function that installs the dispatcher)")
+    return sorted(out.values(), key=lambda x: x.id)
 
 
 def rule_d(ctx):
